@@ -11,11 +11,12 @@ TRUSTED_BASE = [
 
 REG = {
     "C06": {
-        "module": "NirVerif.Properties.C06Model",
+        "module": "NirVerif.Properties.C06Generated",
         "theorems": ["NirVerif.C06.axis", "NirVerif.C06.axis_no_fit", "NirVerif.C06.conv_out_slide", "NirVerif.C06.forms",
                      "NirVerif.C06.scalar_form", "NirVerif.C06.reads_tuple", "NirVerif.C06.reads_list",
-                     "NirVerif.C06.reads_ndarray", "NirVerif.C06.same_keeps", "NirVerif.C06.valid_is_zero"],
-        "translator": ["T4"],
+                     "NirVerif.C06.reads_ndarray", "NirVerif.C06.same_keeps", "NirVerif.C06.valid_is_zero",
+                     "NirVerif.C06.call_sites_generated"],
+        "translator": ["T4", "T21"],
         "run": c06.run,
         "rule": "Per-axis (n,p,d,k,s) enumerated over the small scope, random 2-d hyper-parameter sets in every "
                 "container form, Conv1d/Conv2d constructions and Input->X->Output inference chains; oracle = literal "
@@ -28,9 +29,11 @@ REG = {
                       "integer readings - scalar, tuple, list, ndarray of any integer dtype - give the same result (forms, "
                       "scalar_form, reads_*); 'same' keeps the spatial size and 'valid' is zero padding. The embedding in "
                       "the inference loop (Conv1d/Conv2d/pooling recomputation) is proved in C08 (stepNode_conv2d/1d/pool); "
-                      "the Conv constructors are hand-modelled and tied by differential testing plus an independent oracle.",
-        "level_note": "Lean kernel + translator T4 + correspondence sampling for the glue; float64 vs exact rationals below 2^52.",
-        "technique": "Lean 4 proof over translator-generated kernel + model/implementation correspondence",
+                      "the Conv constructors are hand-modelled and tied by differential testing plus an independent oracle; which "
+                      "expression each call site binds to which parameter, and how the declared output is assembled from the "
+                      "result, is regenerated from the source (T21, call_sites_generated).",
+        "level_note": "Lean kernel + translator T4, T21 + correspondence sampling for the glue; float64 vs exact rationals below 2^52.",
+        "technique": "Lean 4 proof over translator-generated kernel (T4) and regenerated call-site table (T21) + model/implementation correspondence",
         "assumptions": ["calculate_conv_output computes in float64, the theorem in exact rationals: equal while "
                         "|numerator| < 2^52"],
     },
